@@ -165,6 +165,14 @@ type Outcome struct {
 	Tokens []tokens.Token
 	Arena  []string // arena audit differences
 	In     []byte   // the payload as delivered
+	// Handed: byte slices the repository handed out during this call that a later call on the
+	// same object might alter (e.g. Marshal() of a decoder object that is reused).
+	Handed []Handed
+}
+
+type Handed struct {
+	Name  string
+	Bytes []byte
 }
 
 type World struct {
@@ -591,6 +599,10 @@ func (w *World) handleIssue(m *simnet.Msg, s *Session, o *Outcome, op string) {
 				return
 			}
 			o.OK = true
+			if w.ReuseDecoder {
+				// the reused decoder object's encoding is handed out (logged / forwarded)
+				o.Handed = append(o.Handed, Handed{Name: fmt.Sprintf("reused type-1 request object's Marshal() after message %d", m.ID), Bytes: req.Marshal()})
+			}
 			o.Out, o.Err = w.I1[idx].Iss.Evaluate(req)
 		case 2:
 			req := new(type2.BasicPublicTokenRequest)
@@ -605,6 +617,10 @@ func (w *World) handleIssue(m *simnet.Msg, s *Session, o *Outcome, op string) {
 				return
 			}
 			o.OK = true
+			if w.ReuseDecoder {
+				// the reused decoder object's encoding is handed out (logged / forwarded)
+				o.Handed = append(o.Handed, Handed{Name: fmt.Sprintf("reused type-2 request object's Marshal() after message %d", m.ID), Bytes: req.Marshal()})
+			}
 			o.Out, o.Err = w.I2[idx].Iss.Evaluate(req)
 		case 5:
 			req := new(type5.BatchedPrivateTokenRequest)
@@ -619,6 +635,10 @@ func (w *World) handleIssue(m *simnet.Msg, s *Session, o *Outcome, op string) {
 				return
 			}
 			o.OK = true
+			if w.ReuseDecoder {
+				// the reused decoder object's encoding is handed out (logged / forwarded)
+				o.Handed = append(o.Handed, Handed{Name: fmt.Sprintf("reused type-5 request object's Marshal() after message %d", m.ID), Bytes: req.Marshal()})
+			}
 			o.Out, o.Err = w.I5[idx].Iss.Evaluate(req)
 		}
 	})
